@@ -21,13 +21,15 @@ POINT_LEVELS = {
 ALTERNATIVES = {"bignKeyUnwrap": "wwEq("}   # x-only decompression: y^2 == x^3+ax+b recomputed and compared
 
 
-def header_matches(fs):
-    """the accepted comparison is the one the caller's `header` argument selects: a non-null header was compared
-    (memEq(header, ..) accepted); the all-zero test stands in only for header == 0"""
-    null = ("cmp", False, "header") in fs or ("cmp", True, "(header==0)") in fs
-    eq = any(x[0] == "T" and x[1].startswith("memEq(header,") for x in fs)
-    zero = any(x[0] == "T" and x[1].startswith("memIsZero(") for x in fs)
-    return zero if null else eq
+def header_matches_for(name):
+    def header_matches(fs):
+        """the accepted comparison is the one the caller's header argument (`name`) selects: a non-null header was
+        compared (memEq(header, ..) accepted); the all-zero test stands in only for header == 0"""
+        null = ("cmp", False, name) in fs or ("cmp", True, "(%s==0)" % name) in fs
+        eq = any(x[0] == "T" and x[1].startswith("memEq(%s," % name) for x in fs)
+        zero = any(x[0] == "T" and x[1].startswith("memIsZero(") for x in fs)
+        return zero if null else eq
+    return header_matches
 
 
 def run(tier, seed=0):
@@ -45,8 +47,9 @@ def run(tier, seed=0):
                        [("s1 < q", FACT("ltc", r"order$")), ("hash comparison beltHashStepV2", T("beltHashStepV2(")),
                         ("public key coordinates reduced (qrFrom x4)", lambda fs: sum(1 for x in fs if x[0] == "field") >= 4)])
     ku = prog.funcs.get("bignKeyUnwrap")
-    if ku is None or not any(p["n"] == "header" for p in ku.params):
-        raise AnalysisBroken("bignKeyUnwrap has no `header` parameter any more: the header-comparison obligation must be re-anchored")
+    if ku is None or len(ku.params) < 6:
+        raise AnalysisBroken("bignKeyUnwrap(key, params, token, len, header, privkey) vanished: the header-comparison obligation must be re-anchored")
+    header_matches = header_matches_for(ku.params[4]["n"])      # the header by position: a rename does not matter
     vprules.check_must(prog, res, "R02.5-accept-only-verified", "bignKeyUnwrap",
                        [("token length test", CMP(False, r"len<")), ("x coordinate reduced (qrFrom)", T("qrFrom(")),
                         ("curve membership y^2 == x^3+ax+b (wwEq)", T("wwEq(")),
